@@ -234,6 +234,7 @@ class Check(object):
             rules_again = [r for (r, d) in again]
             if rule not in rules_again:
                 log("GATE: violation %s of run %d did not reproduce in a fresh process (got %s)" % (rule, v["k"], rules_again))
+                log("      detail of the unreproduced violation: %s" % v["detail"][:3000])
                 status = 2
                 continue
             small, nre = minimise(v["plan"], lambda p: rule in [r for (r, d) in self.evaluate_fresh(p, flavour)],
